@@ -12,6 +12,9 @@ pub enum WorkerResult {
     Died(String),
     /// no answer within the watchdog limit: inconclusive, never a verdict
     TimedOut,
+    /// no answer within the watchdog limit, and none is coming: every thread of the worker sleeps and none has used any
+    /// CPU time between two samples (the text describes the samples)
+    Blocked(String),
 }
 
 pub struct Worker {
@@ -90,9 +93,24 @@ impl Worker {
                 Err(e) => WorkerResult::Died(format!("garbled answer: {}", e)),
             },
             Err(RecvTimeoutError::Timeout) => {
+                let witness = self.child.as_ref().and_then(|c| {
+                    let pid = c.id();
+                    let a = crate::props::c20::thread_sample(pid);
+                    std::thread::sleep(Duration::from_millis(300));
+                    let b = crate::props::c20::thread_sample(pid);
+                    let all_blocked = !a.is_empty() && a.len() == b.len() && a.iter().zip(b.iter()).all(|(x, y)| x.1 == 'S' && y.1 == 'S' && x.2 == y.2);
+                    if all_blocked {
+                        Some(format!("all {} threads sleep without consuming CPU time: {:?}", b.len(), b))
+                    } else {
+                        None
+                    }
+                });
                 self.kill();
                 self.restarts += 1;
-                WorkerResult::TimedOut
+                match witness {
+                    Some(w) => WorkerResult::Blocked(w),
+                    None => WorkerResult::TimedOut,
+                }
             }
             Err(RecvTimeoutError::Disconnected) => {
                 let st = self.wait_status();
